@@ -258,7 +258,7 @@ impl PropImpl for C18 {
          Payloads come from each type's canonical value domain (unambiguous by the format's own rules). Non-trivial: record / payload-carrying values. Distinct by value hash.".into()
     }
     fn budget(&self, tier: Tier) -> Budget {
-        Budget { cases_per_lane: if tier == Tier::Quick { 3000 } else { 100_000 }, tape_max: 200, cpu_s: 10 }
+        Budget { cases_per_lane: if tier == Tier::Quick { 15000 } else { 100_000 }, tape_max: 200, cpu_s: 10 }
     }
     fn spaces(&self, _tier: Tier) -> Vec<Space> {
         let n: usize = KEYWORDS.iter().map(|k| k.1.len()).sum();
